@@ -210,7 +210,7 @@ class FuncVal:
 
 class CoroVal:
     """result of calling an async def / generator function: not started yet"""
-    __slots__ = ("info", "args", "closure", "ref", "kind", "defcls")
+    __slots__ = ("info", "args", "closure", "ref", "kind", "defcls", "direct", "started")
 
     def __init__(self, info, args, closure=None, kind="coro", defcls=None):
         self.info = info
@@ -219,6 +219,8 @@ class CoroVal:
         self.ref = None
         self.kind = kind       # coro | gen | asyncgen
         self.defcls = defcls
+        self.direct = False
+        self.started = False
 
 
 class Singleton:
